@@ -39,6 +39,16 @@ VARIANTS = [
          old="            allow_outer=allow_outer,\n            seed=seed,\n        )\n\n        ix_sl, _ = sf.search(max_repeats)",
          new="            seed=seed,\n        )\n\n        ix_sl, _ = sf.search(max_repeats)",
          expect=("C07-APPLY", "options")),
+    dict(name="cost model accepts unknown indices silently", kind="break", file=SL,
+         old="        for i in cost._where.pop(ix):", new="        for i in cost._where.pop(ix, ()):",
+         expect=("C07-MODEL", "strict-lookup")),
+    dict(name="overhead baseline from the tree's total cost", kind="break", file=SL,
+         old="        return cls(contractions, size_dict, **kwargs)\n\n    @classmethod\n    def from_info",
+         new="        kwargs.setdefault(\"original_flops\", contraction_tree.contraction_cost())\n        return cls(contractions, size_dict, **kwargs)\n\n    @classmethod\n    def from_info",
+         expect=("C07-MODEL", "baseline")),
+    dict(name="twin: strict lookup spelled as a membership test", kind="twin", file=SL,
+         old="        for i in cost._where.pop(ix):",
+         new="        if ix not in cost._where:\n            raise KeyError(ix)\n        for i in cost._where.pop(ix, ()):"),
     dict(name="twin: filter written as a nested def", kind="twin", file=SL,
          old='''        valid = filter(
             lambda x: (
